@@ -393,6 +393,10 @@ func (c02) RunUnit(raw core.Unit, tier string, seed int64) core.UnitResult {
 		for i := 0; i < u.Kills; i++ {
 			cs := snaps[rng.IntN(len(snaps))]
 			vs, err := realKill(cfg, cs.ev.Addr(), rec)
+			if err == errKillNotReached {
+				res.Probes["kill_address_not_reached"]++
+				continue
+			}
 			if err != nil {
 				res.Trouble = "real-kill leg: " + err.Error()
 				return res
@@ -405,6 +409,8 @@ func (c02) RunUnit(raw core.Unit, tier string, seed int64) core.UnitResult {
 	}
 	return res
 }
+
+var errKillNotReached = fmt.Errorf("kill address not reached")
 
 // realKill runs cfg in a subprocess that kills itself right after the event at addr, then inspects
 // the directory the dead process left.
@@ -420,7 +426,9 @@ func realKill(cfg engine.Config, at simfs.Addr, rec *engine.Result) ([]core.Viol
 	cmd.Env = append(os.Environ(), "VERIF_SCRATCH="+dir)
 	out, err := cmd.CombinedOutput()
 	if err == nil {
-		return nil, fmt.Errorf("kill subprocess for %s at %s exited normally (kill address not reached): %s", cfg, at, string(out))
+		// the number of write calls of large outputs differs slightly from run to run; an address
+		// that this run does not have is not a verdict
+		return nil, errKillNotReached
 	}
 	if ee, ok := err.(*exec.ExitError); !ok || ee.ExitCode() != -1 {
 		return nil, fmt.Errorf("kill subprocess: %v: %s", err, string(out))
@@ -448,6 +456,9 @@ func realKill(cfg engine.Config, at simfs.Addr, rec *engine.Result) ([]core.Viol
 			return true
 		}
 		switch filepath.Ext(rel) {
+		case ".gob", ".p7c":
+			// installed representations are not byte-stable (gob map order): complete = decodes
+			return !strings.HasPrefix(repOf(filepath.Join(root, rel)), "UNDECODABLE")
 		case ".pdf":
 			return validatesWithAnyPW(filepath.Join(root, rel), cfg.Op)
 		case ".json":
